@@ -140,6 +140,27 @@ pub fn programs(tier: Tier) -> ProgramSet {
         }
         big.props = vec![g[..10].to_vec(), g[10..11].to_vec(), g[11..].to_vec()];
         spec.variants.push(big);
+        // 13 properties of EACH type on one variant; key lengths 1..7, declared in an order that is neither alphabetical nor by length
+        let keys = ["m", "zeta", "ab", "q1", "alphabet", "b", "abc", "zz", "k_long_key", "a", "mm", "abd", "y2k"];
+        for (ti, name) in ["Strs", "Ints", "Bools", "Mixed"].iter().enumerate() {
+            let mut v = VariantSpec::unit(name);
+            let mut g: Vec<(String, PropLit)> = Vec::new();
+            for (i, k) in keys.iter().enumerate() {
+                match ti {
+                    0 => g.push((k.to_string(), PropLit::S(format!("s-{}", k)))),
+                    1 => g.push((k.to_string(), PropLit::I(i as i64 * 7 - 40))),
+                    2 => g.push((k.to_string(), PropLit::B(i % 3 != 0))),
+                    _ => {
+                        // the same key with all three types
+                        g.push((k.to_string(), PropLit::S(format!("x{}", i))));
+                        g.push((k.to_string(), PropLit::I(-(i as i64))));
+                        g.push((k.to_string(), PropLit::B(i % 2 == 0)));
+                    }
+                }
+            }
+            v.props = vec![g];
+            spec.variants.push(v);
+        }
         for i in 0..30usize {
             let mut v = VariantSpec::unit(&format!("P{}", i));
             if i % 4 != 3 {
